@@ -92,6 +92,16 @@ func stableOrderIn(p *Prog, l *Ledger, rule, fname string, isList func(v ssa.Val
 		break
 	}
 	sorted = throughLocalCell(sorted)
+	if name == "sort.Stable" {
+		if handled, ok, why := keyedStableSort(p, fn, c, isList); handled {
+			if ok {
+				l.Prove(rule, fname, key, pos, why)
+			} else {
+				l.Fail(rule, fname, key, pos, fname+": "+why)
+			}
+			return
+		}
+	}
 	if !isList(sorted) {
 		l.Fail(rule, fname, key, pos, "the sorted slice is not the receiver's Items field")
 		return
